@@ -45,7 +45,83 @@ func guard(f func() error) (err error) {
 
 // ---------------------------------------------------------------- point edits on compressed images
 
+// torsion points: [r]N for a curve point N outside the prime-order subgroup (nil when the
+// cofactor is 1).  P + T leaves every pairing equation unchanged: only an explicit subgroup
+// check rejects it.
+var (
+	torsOnce sync.Once
+	tors1    *curve.G1Affine
+	tors2    *curve.G2Affine
+	nons1    *curve.G1Affine
+	nons2    *curve.G2Affine
+)
+
+func torsionPoints() {
+	torsOnce.Do(func() {
+		_, _, g1, g2 := curve.Generators()
+		{
+			b := g1.Y
+			b.Square(&b)
+			x3 := g1.X
+			x3.Square(&x3).Mul(&x3, &g1.X)
+			b.Sub(&b, &x3)
+			x := g1.X
+			for i := 0; i < 400 && nons1 == nil; i++ {
+				x.Add(&x, &g1.Y)
+				rhs := x
+				rhs.Square(&rhs).Mul(&rhs, &x).Add(&rhs, &b)
+				if rhs.Legendre() != 1 {
+					continue
+				}
+				y := rhs
+				y.Sqrt(&rhs)
+				p := curve.G1Affine{X: x, Y: y}
+				if p.IsOnCurve() && !p.IsInSubGroup() {
+					nons1 = &p
+				}
+			}
+			if nons1 != nil {
+				var t curve.G1Affine
+				t.ScalarMultiplication(nons1, fr.Modulus())
+				if !t.IsInfinity() {
+					tors1 = &t
+				}
+			}
+		}
+		{
+			b := g2.Y
+			b.Square(&b)
+			x3 := g2.X
+			x3.Square(&x3).Mul(&x3, &g2.X)
+			b.Sub(&b, &x3)
+			x := g2.X
+			for i := 0; i < 400 && nons2 == nil; i++ {
+				x.Add(&x, &g2.Y)
+				rhs := x
+				rhs.Square(&rhs).Mul(&rhs, &x).Add(&rhs, &b)
+				if rhs.Legendre() != 1 {
+					continue
+				}
+				y := rhs
+				y.Sqrt(&rhs)
+				p := curve.G2Affine{X: x, Y: y}
+				if p.IsOnCurve() && !p.IsInSubGroup() {
+					nons2 = &p
+				}
+			}
+			if nons2 != nil {
+				var t curve.G2Affine
+				t.ScalarMultiplication(nons2, fr.Modulus())
+				if !t.IsInfinity() {
+					tors2 = &t
+				}
+			}
+		}
+	})
+}
+
 func pointEdit(kind string, orig []byte, edit string) []byte {
+	torsionPoints()
 	if kind == "G1" {
 		var p, q curve.G1Affine
 		if _, err := p.SetBytes(orig); err != nil {
@@ -60,6 +136,16 @@ func pointEdit(kind string, orig []byte, edit string) []byte {
 			q.Neg(&p)
 		case "double":
 			q.Double(&p)
+		case "plusTorsion":
+			if tors1 == nil {
+				return nil
+			}
+			q.Add(&p, tors1)
+		case "nonsubgroup":
+			if nons1 == nil {
+				return nil
+			}
+			q = *nons1
 		default:
 			return nil
 		}
@@ -79,6 +165,16 @@ func pointEdit(kind string, orig []byte, edit string) []byte {
 		q.Neg(&p)
 	case "double":
 		q.Double(&p)
+	case "plusTorsion":
+		if tors2 == nil {
+			return nil
+		}
+		q.Add(&p, tors2)
+	case "nonsubgroup":
+		if nons2 == nil {
+			return nil
+		}
+		q = *nons2
 	default:
 		return nil
 	}
